@@ -22,7 +22,7 @@ pub struct GenParams {
 }
 
 pub const PAYOFF_FAMILIES: usize = 10;
-pub const WEIGHT_FAMILIES: usize = 7;
+pub const WEIGHT_FAMILIES: usize = 8;
 
 impl GenParams {
     /// A random parameter set; `size` in 0..=3 scales depth and node budget
@@ -113,6 +113,9 @@ impl Builder<'_> {
                 // ordinary weights next to ones so small that their normalised probability is
                 // exactly 0.0 (legal: every weight is positive and finite)
                 6 => *r.pick(&[5e-324, 1e-320, 1.0, 1.0, 3.0, 0.5]),
+                // weights near the top of the range (positive and finite, hence legal): the sum of
+                // two of them overflows although every ratio is an ordinary number
+                7 => *r.pick(&[1e308, 1e308, 1.5e308, 5e307]),
                 _ => (2.0f64).powi(r.range(0, 6) as i32 - 3),
             })
             .collect()
